@@ -34,6 +34,7 @@ func C01(c *run.Ctx) {
 		v := variant(i*c.NShards + c.Shard)
 		w := v.build(nil)
 		s := sim.New(w, c, "code-twice", "replay-error-class", "alive:replay", "dead-unexpected", "rightful-redeem-refused", "code-binding")
+		s.CaseID = id
 		s.BothHints = i%5 == 0
 		// skeleton: two independent grants, one replayed after k refreshes, the other must survive
 		rts := []string{"code", "code id_token", "code token", "code id_token token"}
@@ -97,6 +98,7 @@ func C04(c *run.Ctx) {
 		v := variant(i*c.NShards + c.Shard)
 		w := v.build(nil)
 		s := sim.New(w, c, "refresh-twice", "reuse-error-class", "alive:rotate", "alive:reuse", "dead-unexpected", "rightful-refresh-refused", "refresh-not-rotated")
+		s.CaseID = id
 		s.BothHints = i%5 == 0
 		sc := []string{"offline", "photos", "fosite"}
 		var fam []*sim.Grant
@@ -171,6 +173,7 @@ func C08(c *run.Ctx) {
 		v := variant(i*c.NShards + c.Shard)
 		w := v.build(nil)
 		s := sim.New(w, c, "alive:revoke", "dead-unexpected", "revoke-unauthenticated", "revoke-invalid-token-not-success", "revoke-foreign-class", "revoke-refused", "revoke-changed-state")
+		s.CaseID = id
 		sc := []string{"openid", "offline", "photos"}
 		// a cast of grants of every origin, including hybrid responses with an implicit token
 		var gs []*sim.Grant
